@@ -19,12 +19,12 @@ import RoProps.C05a
 #print axioms Ro.C05a.race
 #print axioms Ro.C05a.race_releases
 #print axioms Ro.C05a.race_losers_released
-#print axioms Ro.C05a.race_cut_releases_partial
-#print axioms Ro.C05a.race_sync_winner_witness
+#print axioms Ro.C05a.race_cut_releases
+#print axioms Ro.C05a.race_done_releases
 #print axioms Ro.C05a.takeUntil_impl
 #print axioms Ro.C05a.takeUntil_partial
 #print axioms Ro.C05a.takeUntil_signal_error_witness
-#print axioms Ro.C05a.takeUntil_concurrent_window_witness
+#print axioms Ro.C05a.takeUntil_concurrent
 #print axioms Ro.C05a.skipUntil_impl
 #print axioms Ro.C05a.skipUntil_partial
 #print axioms Ro.C05a.skipUntil_signal_error_witness
